@@ -14,6 +14,12 @@ CHECKS = {
                 text="Translation validation per emitted program: loaded module vs independent rendering of ModelRegistry.models_map, field by field.", note=TB, ref="4 C04"),
     "C05": dict(category="exploration", technique="runtime monitoring: merge monitor wrapped around ModelRegistry.merge_models (snapshot, union-find reference partition, registry and pointer-graph walk)",
                 text="All similarity graphs on <=5 models (exhaustive; n=6 sampled in quick, complete in thorough) through a table-driven comparator, plus random inputs with the real comparators; each merge_models call is observed by the monitor.", note=TB, ref="4 C05"),
+    "C06": dict(category="exploration", technique="runtime monitoring: byte comparison of outputs of the same generations executed in fresh processes under different PYTHONHASHSEED values and perturbed heap layouts (library batch runner + real CLI subprocesses)",
+                text="Each case is generated in >=7 process environments; any differing byte is a violation.", note=TB + " Memory layouts are perturbed, not enumerated.", ref="4 C06"),
+    "C07": dict(category="exploration", technique="runtime monitoring: canonical unfolding of the loaded emitted class graph compared across all permutations / duplications of the sample list",
+                text="Per base list all permutations (<=4 samples) and five duplication patterns are generated and compared canonically.", note=TB, ref="4 C07"),
+    "C08": dict(category="exploration", technique="runtime monitoring: normal-form predicate on the IR at the generate()/merge_models() boundary, second-pass no-op monitor, ast scan of emitted annotation source",
+                text="Exhaustive over multisets of <=2 (thorough: <=3) values from a 40-value universe in one field, plus random inputs.", note=TB, ref="4 C08"),
 }
 NOT_YET = {}
 props = [json.loads(l) for l in open(os.path.join(HERE, "properties.jsonl"))]
